@@ -9,6 +9,7 @@ import (
 
 	"go.nanomsg.org/mangos/v3"
 	"go.nanomsg.org/mangos/v3/protocol/bus"
+	"go.nanomsg.org/mangos/v3/protocol/pair"
 	"go.nanomsg.org/mangos/v3/protocol/xbus"
 )
 
@@ -123,5 +124,74 @@ func runForwardAfterPeerReplaced(c *Ctx) {
 			_ = b.Close()
 		}
 		_ = fwd.Close()
+	}
+}
+
+// C02, C13 — a PAIR socket's only peer goes away while the socket's event hook is still busy with that peer's Attached
+// event; afterwards the place must be free: a second peer connects (its dialer retrying as usual) and its messages
+// arrive.  (The departure has to reach the protocol although it happened before the hook returned.)
+func runPairPeerLeavesDuringAttachedHook(c *Ctx) {
+	for _, trn := range []string{"inproc", "tcp"} {
+		tr := transportNamed(trn)
+		srv, _ := pair.NewSocket()
+		_ = srv.SetOption(mangos.OptionRecvDeadline, 3*time.Second)
+		inHook := make(chan struct{}, 4)
+		release := make(chan struct{})
+		var mu sync.Mutex
+		first := true
+		srv.SetPipeEventHook(func(ev mangos.PipeEvent, p mangos.Pipe) {
+			if ev != mangos.PipeEventAttached {
+				return
+			}
+			mu.Lock()
+			f := first
+			first = false
+			mu.Unlock()
+			if f {
+				inHook <- struct{}{}
+				<-release
+			}
+		})
+		l, err := srv.NewListener(r4addr(tr), nil)
+		if err != nil || l.Listen() != nil {
+			_ = srv.Close()
+			continue
+		}
+		p1, _ := pair.NewSocket()
+		ok := p1.Dial(l.Address()) == nil
+		if ok {
+			select {
+			case <-inHook:
+			case <-time.After(2 * time.Second):
+				ok = false
+			}
+		}
+		_ = p1.Close()
+		time.Sleep(40 * time.Millisecond) // the server side notices the departure while its hook is still running
+		close(release)
+		bad := ""
+		if ok {
+			time.Sleep(20 * time.Millisecond)
+			p2, _ := pair.NewSocket()
+			_ = p2.SetOption(mangos.OptionReconnectTime, 20*time.Millisecond)
+			_ = p2.SetOption(mangos.OptionMaxReconnectTime, 20*time.Millisecond)
+			_ = p2.SetOption(mangos.OptionDialAsynch, true)
+			_ = p2.SetOption(mangos.OptionSendDeadline, 3*time.Second)
+			if p2.Dial(l.Address()) == nil {
+				done := make(chan error, 1)
+				go func() { done <- p2.Send([]byte("second peer")) }()
+				got, err := srv.Recv()
+				if err != nil || string(got) != "second peer" {
+					bad = fmt.Sprintf("the first peer left while the Attached hook for it was still running; a second peer then dialled for 3 s and its message never arrived (%v %q): the place of the peer that had gone was never given up", err, got)
+				}
+			}
+			_ = p2.Close()
+		}
+		c.Class("pair-peer-leaves-during-attached-hook "+tr.name, true)
+		if bad != "" {
+			c.Violate("PAIR ("+tr.name+"): "+bad, map[string]interface{}{"transport": tr.name,
+				"scenario": "PAIR socket listening with an event hook that lingers in the first Attached event; peer 1 dials, is closed while the hook is running, 40 ms later the hook returns; peer 2 dials (DIAL-ASYNCH, RECONNECT-TIME 20 ms) and sends; the listening socket must receive it"})
+		}
+		_ = srv.Close()
 	}
 }
